@@ -88,6 +88,16 @@ func init() {
 					cs = append(cs, driver.Case{Harness: "verifH_c12_ecdh_genkey", Pkg: "ecdh", Config: "purego", Params: P("failat", failAt, "mode", mode), MaxUnwind: 200, TimeoutS: 1200, MustReach: reach})
 				}
 			}
+			// sm2 randFieldElement (math/big; sm2.KeyExchange and the legacy paths)
+			for failAt := 1; failAt <= 3; failAt++ {
+				for mode := 1; mode <= 2; mode++ {
+					reach := []string{"failed"}
+					if failAt > 1 {
+						reach = []string{"failed", "ok"}
+					}
+					cs = append(cs, driver.Case{Harness: "verifH_c12_randfield", Pkg: "sm2", Config: "purego", Params: P("failat", failAt, "mode", mode), Overrides: sm2Overrides(), MaxUnwind: 400, MaxPaths: 4000, TimeoutS: 1200, MustReach: reach})
+				}
+			}
 			// SM9: ephemeral scalars and master-key generation (short reads, errors, EOF at any call)
 			for failAt := 1; failAt <= 3; failAt++ {
 				for mode := 1; mode <= 3; mode++ {
@@ -103,10 +113,10 @@ func init() {
 			}
 			return cs
 		},
-		Functions:   []string{"internal/sm9.randomScalar, GenerateSignMasterKey, GenerateEncryptMasterKey, NewSignMasterPrivateKey, NewEncryptMasterPrivateKey, isLess", "ecdh.(*sm2Curve).GenerateKey/NewPrivateKey, isLess", "internal/randutil.MaybeReadByte (reads one byte or none)", "sm2.randomPoint", "internal/bigmod.(*Nat).{SetBytes,IsZero,Equal,Bytes,...} (real limb code)", "io.ReadFull"},
+		Functions:   []string{"sm2.randFieldElement (real math/big SetBytes/Sign/Cmp)", "internal/sm9.randomScalar, GenerateSignMasterKey, GenerateEncryptMasterKey, NewSignMasterPrivateKey, NewEncryptMasterPrivateKey, isLess", "ecdh.(*sm2Curve).GenerateKey/NewPrivateKey, isLess", "internal/randutil.MaybeReadByte (reads one byte or none)", "sm2.randomPoint", "internal/bigmod.(*Nat).{SetBytes,IsZero,Equal,Bytes,...} (real limb code)", "io.ReadFull"},
 		Assumptions: []string{"scripted random source: fresh symbolic 32-byte blocks; at a chosen call index it returns an error or half a block followed by EOF", "group/field arithmetic abstract (uninterpreted functions over coordinates; harness/internal/sm2ec)"},
 		Bounds:      map[string]string{"quick": "up to 3 blocks before the source fails", "thorough": "same"},
-		Outside:     []string{"randFieldElement (math/big; legacy curves and sm2.KeyExchange)", "uniformity itself (follows from exact-block + rejection)"},
+		Outside:     []string{"uniformity itself (follows from exact-block + rejection)"},
 		Oracle:      "block-exactness / rejection sampling",
 	})
 }
